@@ -20,7 +20,7 @@ from ..util import (
     urlsafe_b64encode,
 )
 from ..errors import BadSignatureError
-from .registry import JWSRegistry, construct_registry
+from .registry import JWSRegistry, construct_registry, check_b64_header
 from ..registry import check_disjoint_headers
 
 
@@ -38,6 +38,7 @@ def serialize_json(
         return _serialize_json(member, payload, private_key, algorithms, registry)
 
     registry = construct_registry(algorithms, registry)
+    check_b64_header(_member.protected)
 
     if _member.protected["b64"] is True:
         return _serialize_json(member, payload, private_key, registry=registry)
@@ -111,6 +112,7 @@ def _extract_json(value: FlattenedJSONSerialization) -> t.Optional[FlattenedJSON
     # "b64" does not switch the payload encoding
     if not isinstance(protected, dict) or "b64" not in protected:
         return None
+    check_b64_header(protected)
 
     payload = to_bytes(value["payload"])
     obj = FlattenedJSONSignature(member, payload)
